@@ -222,10 +222,35 @@ class Ctx:
                     results[t] = (True, "axioms: " + ", ".join(ax))
                 else:
                     results[t] = (False, "depends on axioms: " + ", ".join(ax))
+        if self.tier == "thorough" and all(okk for okk, _ in results.values()):
+            # independent re-check of the compiled property file and everything it depends on
+            okc, detail = self.coqchk(os.path.splitext(prop_file)[0], gen)
+            self.coverage["coqchk"] = detail
+            if not okc:
+                for t in list(results):
+                    results[t] = (False, "coqchk: " + detail)
+                log += "\ncoqchk: " + detail
         for t, (okk, _) in results.items():
             if okk and t not in self.discharged:
                 self.discharged.append(t)
         return results, log
+
+    def coqchk(self, module, gen=None, timeout=3000):
+        """Run the independent checker on Props.<module> (compiled in scratch) and its whole dependency closure."""
+        cmd = ["coqchk", "-silent", "-o", "-Q", THEORIES, "Seccomp", "-Q", os.path.join(COQ, "oracle"), "Oracle"]
+        if gen:
+            cmd += ["-Q", gen, "Gen"]
+        cmd += ["-Q", os.path.join(self.scratch, "props"), "Props", "Props." + module]
+        t0 = time.time()
+        try:
+            r = subprocess.run(cmd, capture_output=True, text=True, timeout=timeout)
+        except subprocess.TimeoutExpired:
+            return False, "timeout after %d s" % timeout
+        out = r.stdout + r.stderr
+        m = re.search(r"\* Axioms:\s*(.*?)\n\s*\n", out, re.S)
+        axioms = m.group(1).strip() if m else "?"
+        ok = r.returncode == 0 and axioms == "<none>" and "type-in-type: <none>" in out.replace("\n", " ") and "positivity is assumed: <none>" in out.replace("\n", " ")
+        return ok, "exit %d, axioms: %s, %.0f s" % (r.returncode, axioms, time.time() - t0)
 
     # ---------------------------------------------------------------- evidence
     def write_evidence(self, level="proof", extra=None):
